@@ -8,7 +8,8 @@ request := rules `|` doc_s `|` table
 rules   := rule `;` … ; rule := id_s `,` level `,` flags `,` trig_s `,` repl_s `,` tokTrig_s
            flags = 6 bits: fixes hasStart hasToken hasLine hasDone doneNl
 table   := (doc_s `=` tok_s `/` tok_s …) `;` …      token strings of every document that can occur
-answer  := content_s `|` fixed `|` levels `|` ops `|` log       or `no-fix-rules`
+answer  := content_s `|` fixed `|` levels `|` ops `|` log `|` conflict      or `no-fix-rules`
+conflict := `-` | level `:` content_before_s     (the pass at `level` ends in the completion-line BadPluginError)
 -/
 namespace Verif.Drv.FixSched
 open Verif Verif.Model.FixSched
@@ -82,7 +83,10 @@ def step (line : String) : String :=
       let lv := ",".intercalate (o.levels.map toString)
       let ops := ",".intercalate (o.ops.map encOp)
       let lg := ";".intercalate (o.log.map fun (id, c) => s!"{encS id}:{encCall c}")
-      s!"{encS o.content}|{if o.fixed then 1 else 0}|{lv}|{ops}|{lg}"
+      let cf := match fileConflict rs toks (fun _ _ => none) (decS doc) with
+        | none => "-"
+        | some (k, d) => s!"{k}:{encS d}"
+      s!"{encS o.content}|{if o.fixed then 1 else 0}|{lv}|{ops}|{lg}|{cf}"
   | _ => "bad-op"
 
 end Verif.Drv.FixSched
